@@ -10,7 +10,7 @@ from .calls import FrameCtx, SuperProxy
 from .engine import Frame, Outcome, fresh, fresh_arr_like, fresh_like, parse_expr
 from .interp import Interp, _check_pure, _is_doc
 from .values import (
-    NONE, Arr, BoundMethod, CDict, DictV, Exc, Iter, Obj, Opaque, Opt, Poison, Ref, State, Unsupported, VClass,
+    NONE, Arr, BoundMethod, CDict, DictV, Exc, Iter, Obj, Opaque, Opt, Poison, Ref, State, Unsupported, VClass, ViewRef,
     VStr, VTuple, fresh_name, is_boolish, is_num, is_z3, to_z3, zand, zite, znot, zor,
 )
 
@@ -306,6 +306,12 @@ def assign(self: Interp, target, val, st: State):
             base = base.val
         if isinstance(base, Opaque) and base.cls in lib.OPAQUE_SETITEM:
             return lib.OPAQUE_SETITEM[base.cls](self, st, base, target.slice, val, target)
+        if isinstance(base, ViewRef):       # a write THROUGH the row view: into the array itself
+            name, tup = self.view_slice(base, target.slice, st)
+            try:
+                return lib.arr_setitem(self, st, base.base, tup, val, target)
+            finally:
+                st.env.pop(name, None)
         if isinstance(base, Ref) and base.what == "dict":
             k = self.eval(target.slice, st)
             d = st.heap[base.rid]
@@ -477,7 +483,7 @@ def x_Global(self, s, st):
 
 # ------------------------------------------------------------------------------------------------ loops
 
-def make_iter(self: Interp, v, st) -> Iter:
+def make_iter(self: Interp, v, st, view_target=False) -> Iter:
     if isinstance(v, Iter):
         return v
     if isinstance(v, Opt):
@@ -487,6 +493,8 @@ def make_iter(self: Interp, v, st) -> Iter:
         return Iter(len(items), lambda i: self._pick(items, i))
     if isinstance(v, (Arr, Ref)) and not (isinstance(v, Ref) and v.what != "arr"):
         a = self.arr_of(v, st)
+        if view_target and isinstance(v, Ref) and a.kind == "ndarray" and a.ndim >= 2:
+            return Iter(a.shape[0], lambda i: ViewRef(v, i))
         return Iter(a.shape[0], lambda i: lib.arr_index(self, st, a, [i], base=v))
     raise Unsupported(f"iteration over {type(v).__name__}")
 
@@ -686,7 +694,7 @@ def x_For(self: Interp, s: ast.For, st: State):
 def _x_for(self: Interp, s: ast.For, st: State):
     inv, lid = get_invariant(self, s, ast.unparse(s.iter))
     itv = self.eval(s.iter, st)
-    it = make_iter(self, itv, st)
+    it = make_iter(self, itv, st, view_target=_stores_through(s))
     n = it.length
     cn = self.concrete_int(n)
     if inv is None:
@@ -777,6 +785,22 @@ def _x_for(self: Interp, s: ast.For, st: State):
         # the iteration counter stays visible as `kv` for post-loop reasoning in the contract
         outs += self.exec_block(s.orelse, exit_state) if s.orelse else [Outcome("normal", exit_state)]
     return outs
+
+
+def _stores_through(s: ast.For) -> bool:
+    """Does the loop body assign to `<loop variable>[...]` (a write through the row view of the iterated array)?"""
+    if not isinstance(s.target, ast.Name):
+        return False
+    for n in ast.walk(ast.Module(body=s.body, type_ignores=[])):
+        tgts = []
+        if isinstance(n, ast.Assign):
+            tgts = n.targets
+        elif isinstance(n, (ast.AugAssign, ast.AnnAssign)):
+            tgts = [n.target]
+        for t in tgts:
+            if isinstance(t, ast.Subscript) and isinstance(t.value, ast.Name) and t.value.id == s.target.id:
+                return True
+    return False
 
 
 def x_While(self: Interp, s: ast.While, st: State):
